@@ -132,6 +132,7 @@ class Sub:
         max_wall=None,
         workers=None,
         note="",
+        external=None,
     ):
         self.name = name
         self.run = run
@@ -142,6 +143,7 @@ class Sub:
         self.max_wall = max_wall or {"quick": 60, "thorough": 900}
         self.workers = workers or {"quick": 8, "thorough": 16}
         self.note = note
+        self.external = external  # callable(tier, seed, known_keys) -> list of worker-style result dicts
 
 
 class CheckSpec:
@@ -450,7 +452,7 @@ def main(mod_name, argv=None):
             continue
         W = min(sub.workers[tier], os.cpu_count() or 4)
         n_total = max(1, int(sub.budget[tier] * args.scale))
-        if sub.strategy is not None:
+        if sub.strategy is not None and sub.external is None:
             W = max(1, min(W, n_total // 20 or 1))
         per = -(-n_total // W)
         jobs = [
@@ -458,7 +460,14 @@ def main(mod_name, argv=None):
             for w in range(W)
         ]
         ts = time.monotonic()
-        if W == 1:
+        if sub.external is not None:
+            try:
+                results = sub.external(tier, seed_value, list(okeys))
+            except BaseException as e:
+                if isinstance(e, (KeyboardInterrupt, SystemExit)):
+                    raise
+                results = [{"harness_error": "".join(traceback.format_exception(type(e), e, e.__traceback__))[-3000:]}]
+        elif W == 1:
             results = [_worker(jobs[0])]
         else:
             with ctx.Pool(W) as pool:
@@ -498,7 +507,7 @@ def main(mod_name, argv=None):
         sub_reports.append(
             {
                 "name": sub.name,
-                "kind": "hypothesis" if sub.strategy is not None else "enumeration",
+                "kind": "atheris (coverage-guided)" if sub.external is not None else "hypothesis" if sub.strategy is not None else "enumeration",
                 "evaluations": sub_eval,
                 "distinct_nontrivial": len(sub_nt),
                 "exhaustive": bool(sub.exhaustive and sub.strategy is None and complete and not only),
